@@ -7,6 +7,8 @@ must agree.  Exit status 1 on any mismatch.
     python3 test_lynative.py            # run everything
     python3 test_lynative.py -k sort    # only probes whose name contains 'sort'
     python3 test_lynative.py -v         # list every probe
+    python3 test_lynative.py -s         # print whole programs for failures
+    python3 test_lynative.py --fuzz 3000 --seed 7   # only random iterator pipelines
 """
 import concurrent.futures
 import os
@@ -199,10 +201,17 @@ class Probe:
         self.mode = mode          # match | refuse | any
         stmts = []
         self.short = []
+        if mode == 'any':
+            # generated probes often yield iterators, which print() shows by name
+            # in the VM while lyref refuses to print them: show them via str()
+            stmts.append(A.Fn('show', ['v'], [
+                A.If(A.Call(A.Prop(A.Var('v'), 'isA?'), [A.Var('Iter')]),
+                     [A.Return(A.Bin('+', A.Str('<iter> '), A.Call(A.Prop(A.Var('v'), 'str'), [])))], None, None),
+                A.Return(A.Var('v'))]))
         for x in items:
             self.short.append(A.to_source([A.ExprS(x.n)] if isinstance(x, E) else [x]).rstrip())
             if isinstance(x, E):
-                body = [A.Print([x.n])]
+                body = [A.Print([A.Call(A.Var('show'), [x.n])] if mode == 'any' else [x.n])]
                 stmts.append(guarded_msg(body) if msg else guarded(body))
             elif isinstance(x, A.N):
                 stmts.append(x)
@@ -843,7 +852,8 @@ def case_mapping_probes():
     """upCase/downCase over every code point of the ranges case_safe accepts,
     a few hundred code points per program"""
     ranges = [(0x20, 0x180), (0x370, 0x3d0), (0x400, 0x460), (0x3040, 0x3100), (0x4e00, 0x4e80), (0x9fc0, 0xa000),
-              (0x1f300, 0x1f340), (0x1f600, 0x1f650)]
+              (0x1f300, 0x1f650)]
+    ranges += [(c, c + 1) for c in range(0x4e80, 0x9fc0, 37)]
     cps = []
     for lo, hi in ranges:
         for c in range(lo, hi):
@@ -879,6 +889,125 @@ def parse_fuzz_probes():
         probe('Number.parse fuzz %d' % i, *items)
 
 
+def pipeline_fuzz_probes(count=1000, seed=20260926):
+    """Random iterator pipelines: a pool of iterator variables built from random
+    sources and adaptors (sharing sources), observed and advanced in random
+    order, with callbacks that print, alternate and raise on their k-th call,
+    and a shared source list that is mutated in between."""
+    rnd = random.Random(seed)
+    for pi in range(count):
+        items = [
+            let('lst', [rnd.randrange(10) for _ in range(rnd.choice([0, 1, 3, 5, 6, 8, 9]))]),
+            let('cnt', 0),
+            let('boomAt', rnd.choice([2, 3, 5, 8, 100, 100])),
+            fn('cb', 'x', pr('cb', V('x')), ret(L(V('x')))),
+            fn('pred', 'x', assign(V('cnt'), V('cnt') + 1), pr('pred', V('x'), V('cnt')),
+               ret(eq(V('cnt') - (V('cnt') / 2).floor() * 2, rnd.choice([0, 1])))),
+            fn('boom', 'x', assign(V('boomAt'), V('boomAt') - 1),
+               ife(eq(V('boomAt'), 0), [rz('ValueError', 'boom')]), pr('boom ok', V('x')), ret(V('x'))),
+            fn('truthy', 'x', ret(True)),
+        ]
+        names = []
+
+        def source():
+            k = rnd.randrange(9)
+            if k <= 2:
+                return V('lst').iter()
+            if k == 3:
+                return X(rnd.choice([0, 1, 4, 7, 9])).times()
+            if k == 4:
+                return X(rnd.choice([0, 1, -2])).until(rnd.choice([0, 3, 6]), rnd.choice([1, 2, 0.5]))
+            if k == 5:
+                return X(rnd.choice(['', 'a', 'héé', 'a😀b', 'abcdefgh'])).iter()
+            if k == 6:
+                return X(rnd.choice(['', 'a,b', ',a,,', 'a,b,c,d,e,f'])).split(rnd.choice([',', ',', '', 'a']))
+            if k == 7:
+                return T(*[rnd.randrange(5) for _ in range(rnd.randrange(0, 7))]).iter()
+            return M(rnd.choice([{}, {'k': 1}])).iter()
+
+        def new_iter(e):
+            name = 'i%d' % len(names)
+            names.append(name)
+            # creation may raise (take/skip arguments): keep the variable defined
+            items.append(let(name, L().iter()))
+            items.append(guarded([assign(V(name), e)]))
+
+        for _ in range(rnd.randrange(1, 4)):
+            new_iter(source())
+        nops = rnd.randrange(8, 24)
+        build = rnd.randrange(1, 6)
+        drainy = rnd.random() < 0.3
+        for step in range(nops):
+            k = rnd.randrange(100)
+            if step < build:
+                k = rnd.randrange(30)
+            elif k >= 66 and not drainy and rnd.random() < 0.7:
+                k = rnd.randrange(30, 66)
+            v = V(rnd.choice(names[-3:] if rnd.random() < 0.6 else names))
+            if k < 30:
+                a = rnd.randrange(8)
+                if a == 0:
+                    e = v.map(V(rnd.choice(['cb', 'cb', 'boom'])))
+                elif a == 1:
+                    e = v.filter(V(rnd.choice(['pred', 'pred', 'truthy', 'boom'])))
+                elif a == 2:
+                    e = v.take(rnd.choice([0, 1, 2, 3, 10, -1, 1.5]))
+                elif a == 3:
+                    e = v.skip(rnd.choice([0, 1, 2, 3, 10, -1, 1.5]))
+                elif a == 4:
+                    e = v.zip(*[V(rnd.choice(names)) for _ in range(rnd.randrange(0, 3))])
+                elif a == 5:
+                    e = v.chain(*[V(rnd.choice(names)) for _ in range(rnd.randrange(0, 3))])
+                elif a == 6:
+                    e = source()
+                else:
+                    e = v.iter()
+                new_iter(e)
+            elif k < 45:
+                items.append(v.next())
+            elif k < 58:
+                items.append(v.current())
+            elif k < 66:
+                items.append(v.len())
+            elif k < 72:
+                items.append(v.list())
+            elif k < 76:
+                items.append(v.first())
+            elif k < 79:
+                items.append(v.last())
+            elif k < 82:
+                items.append(v.str())
+            elif k < 85:
+                items.append(v.reduce(0, blk('a x', pr('red', V('a'), V('x')), ret(V('a') + 1))))
+            elif k < 87:
+                items.append(v.all(V(rnd.choice(['pred', 'boom']))))
+            elif k < 89:
+                items.append(v.any(V(rnd.choice(['pred', 'boom']))))
+            elif k < 91:
+                items.append(v.each(V(rnd.choice(['cb', 'boom']))))
+            elif k < 93:
+                items.append(v.into(lam('i', V('i').next())))
+            elif k < 95:
+                items.append(guarded([A.For('x', lift(v), [pr('for', V('x')), ife(eq(V('cnt'), rnd.randrange(4)), [A.Break()])])]))
+            elif k < 96:
+                items.append(V('Tuple').collect(v))
+            elif k < 97:
+                items.append(V('List').collect(v))
+            else:
+                m = rnd.randrange(4)
+                if m == 0:
+                    items.append(V('lst').push(rnd.randrange(10), rnd.randrange(10)))
+                elif m == 1:
+                    items.append(V('lst').pop())
+                elif m == 2:
+                    items.append(V('lst').clear())
+                else:
+                    items.append(V('lst').insert(0, 's'))
+        for name in names:
+            items.append(V(name).current())
+        probe('pipeline fuzz %d' % pi, *items, msg=True)
+
+
 def build_probes():
     index_probes()
     number_probes()
@@ -893,6 +1022,7 @@ def build_probes():
     kind_arity_probes()
     case_mapping_probes()
     parse_fuzz_probes()
+    pipeline_fuzz_probes()
 
 
 # ---------------------------------------------------------------------------
@@ -948,7 +1078,12 @@ def main(argv):
     pat = None
     if '-k' in argv:
         pat = argv[argv.index('-k') + 1]
-    build_probes()
+    if '--fuzz' in argv:
+        # extra random pipelines only: --fuzz COUNT [--seed N]
+        seed = int(argv[argv.index('--seed') + 1]) if '--seed' in argv else 1
+        pipeline_fuzz_probes(int(argv[argv.index('--fuzz') + 1]), seed)
+    else:
+        build_probes()
     probes = [p for p in PROBES if pat is None or pat in p.name]
     srcs = [A.to_source(p.stmts) for p in probes]
     workdir = tempfile.mkdtemp(prefix='lynat')
